@@ -750,3 +750,34 @@ def vt_types_rules(ck, P, rule="R-VT-TYPES"):
             a0 = ir.strip(nb[0]["a"][0])
             okz = a0.get("k") == "mcall" and a0.get("name") == "min" and ir.const_eval(a0["a"][0], {}) == 8
         ck.check(okz, rule, bs[0]["q"] + "|level", "the block-local box is built on level min(z, 8)", "the block-local box is not built on level min(z, 8): local coordinates up to 255 are rejected or unbounded", ir.loc(bs[0]))
+
+
+
+def byte_range_shift_rules(ck, P, rule="R-BASE"):
+    """ByteRange's shifting helpers (used by the writers to make offsets relative): get_shifted_backward = (offset - n, length),
+    get_shifted_forward = (offset + n, length), shift_backward / shift_forward change self.offset by n and nothing else"""
+    from . import affine as A
+    from . import boxalg
+    fns = {nm: [b for b in P.bodies if b["q"].endswith("byte_range::ByteRange::" + nm)] for nm in ("get_shifted_backward", "get_shifted_forward", "shift_backward", "shift_forward")}
+    if not ck.anchor(rule, "ByteRange shift helpers", [v[0] for v in fns.values() if v], 4):
+        return
+    for nm, sign in (("get_shifted_backward", -1), ("get_shifted_forward", 1)):
+        b = fns[nm][0]
+        st = [y for y in ir.walk_nodes(b["body"]) if y.get("k") == "struct"]
+        ps = [x for p_ in b["params"] for x in ir.pat_binds(p_) if x["name"] != "self"]
+        ok = False
+        if len(st) == 1 and ps:
+            fv = {f["name"]: A.ev(f["e"], A.Env()) for f in st[0]["fields"]}
+            sp = next(y for y in ir.walk_nodes(b["body"]) if y.get("k") == "path" and y.get("name") == "self")
+            so, sl = A.sym(((sp["hid"], "self"), ".offset")), A.sym(((sp["hid"], "self"), ".length"))
+            ok = A.eq(fv.get("offset"), A.add(so, A.local_sym(ps[0]), sign)) and A.eq(fv.get("length"), sl)
+        ck.check(ok, rule, b["q"], "%s = (offset %s n, length)" % (nm, "+" if sign > 0 else "-"), "%s does not return (offset %s n, length)" % (nm, "+" if sign > 0 else "-"), ir.loc(b))
+    for nm, sign in (("shift_backward", -1), ("shift_forward", 1)):
+        b = fns[nm][0]
+        r = boxalg.paths(P, b, ["offset", "length"])
+        ps = [x for p_ in b["params"] for x in ir.pat_binds(p_) if x["name"] != "self"]
+        ok = False
+        if r and r["paths"] and ps:
+            sp = r["self"]
+            ok = all(A.eq(st.store.get((sp, ".offset")), A.add(A.sym((sp, ".offset")), A.local_sym(ps[0]), sign)) and (sp, ".length") not in st.store for st in r["paths"])
+        ck.check(ok, rule, b["q"], "%s changes self.offset by %sn and nothing else" % (nm, "+" if sign > 0 else "-"), "%s does not change self.offset by %sn only" % (nm, "+" if sign > 0 else "-"), ir.loc(b))
